@@ -43,6 +43,9 @@ pub struct Total;
 
 impl Prop for Total {
     type Case = Case;
+    fn input_bytes<'a>(&self, c: &'a mut Self::Case) -> Option<&'a mut Vec<u8>> {
+        Some(&mut c.input.0)
+    }
     fn strategy(&self, _tier: Tier) -> BoxedStrategy<Case> {
         let per_format = move |f: Format| {
             let input = prop_oneof![4 => gen::any_input(f, true), 2 => super::c04::history_input(f)];
@@ -105,6 +108,9 @@ pub struct EnumeratedFaults;
 
 impl Prop for EnumeratedFaults {
     type Case = super::c14::Case;
+    fn input_bytes<'a>(&self, c: &'a mut Self::Case) -> Option<&'a mut Vec<u8>> {
+        Some(&mut c.input.0)
+    }
     fn strategy(&self, tier: Tier) -> BoxedStrategy<super::c14::Case> {
         use crate::engine::Prop as _;
         // histories that retry: every seek is followed by a second seek to the same record and a read
